@@ -15,7 +15,7 @@ use crate::modes::search::ViSearch;
 use crate::reader::{KeyReader, RawReader};
 use crate::register::read_register;
 use crate::vic::{BinOp, BoolOp, CmdArg, Expr};
-use crate::vicmd::{Bound, LineAddr, TextObj, Word};
+use crate::vicmd::{Anchor, Bound, LineAddr, TextObj, Word};
 use crate::{complain_and_exit, Cmd, ExecCtx};
 
 use super::linebuf::{LineBuf, SelectAnchor, SelectMode};
@@ -381,6 +381,18 @@ impl ViCut {
 		self.current_buffer().enforce_cursor_clamp();
 	}
 
+	/// For a session opened with 'o' or 'O': the command that opens the line for the next repetition
+	/// of a counted session (always below the line just typed)
+	fn line_below_entry(entry: &ViCmd) -> Option<ViCmd> {
+		let verb = entry.verb()?;
+		if !matches!(verb.1, Verb::InsertModeLineBreak(_)) {
+			return None
+		}
+		let mut below = entry.clone();
+		below.verb = Some(VerbCmd(1, Verb::InsertModeLineBreak(Anchor::After)));
+		Some(below)
+	}
+
 	/// A change whose motion fails ('cfx' without an x, 'cj' on the last line, 'ci(' outside parentheses)
 	/// is abandoned like any other operator: nothing is taken and no text is typed.
 	/// (Motions that merely cannot go further, like 'cl' on an empty line, still open the text.)
@@ -451,7 +463,12 @@ impl ViCut {
 				if matches!(self.mode.report_mode(), ModeReport::Insert | ModeReport::Replace) {
 					if let Some(CmdReplay::ModeReplay { cmds, repeat }) = self.mode.as_replay() {
 						let typed = &cmds[..cmds.len().saturating_sub(1)]; // without this <esc>
+						// '3oX': every repetition goes on a line of its own, below the one before
+						let new_line = self.insert_entry.as_ref().and_then(Self::line_below_entry);
 						for _ in 1..repeat {
+							if let Some(new_line) = new_line.as_ref() {
+								self.current_buffer().exec_cmd(new_line.clone())?;
+							}
 							for typed_cmd in typed {
 								self.current_buffer().exec_cmd(typed_cmd.clone())?;
 							}
@@ -582,10 +599,16 @@ impl ViCut {
 				// The session is replayed under the clamp it was typed with: entry once, the text `repeat` times, <esc> once
 				let replace_mode = entry.as_ref().is_some_and(|c| c.verb().is_some_and(|v| matches!(v.1, Verb::ReplaceMode)));
 				self.current_buffer().set_cursor_clamp(replace_mode);
+				let new_line = entry.as_ref().and_then(Self::line_below_entry);
 				if let Some(entry) = entry {
 					self.current_buffer().exec_cmd(entry)?;
 				}
-				for _ in 0..repeat.max(1) {
+				for round in 0..repeat.max(1) {
+					if round > 0 {
+						if let Some(new_line) = new_line.as_ref() {
+							self.current_buffer().exec_cmd(new_line.clone())?;
+						}
+					}
 					for cmd in typed {
 						self.current_buffer().exec_cmd(cmd.clone())?
 					}
